@@ -4478,8 +4478,16 @@ inline int CLUFactorRational::solveLleft(Rational* vec, int* nonz, int rn)
 
    /*  move rhsidx to a heap
     */
+   // With exact arithmetic an entry can cancel to zero while its index is still in the heap (the floating-point code
+   // stores a marker value in that case); remember which indices are queued so that none is queued twice, otherwise
+   // heap and result list, which share nonz[], outgrow the array.
+   std::vector<bool> queued(thedim, false);
+
    for(i = 0; i < rn;)
+   {
+      queued[nonz[i]] = true;
       enQueueMaxRat(nonz, &i, rperm[nonz[i]]);
+   }
 
    last = nonz + thedim;
 
@@ -4511,7 +4519,12 @@ inline int CLUFactorRational::solveLleft(Rational* vec, int* nonz, int rn)
                if(y != 0)
                {
                   vec[m] = y;
-                  enQueueMaxRat(nonz, &rn, rperm[m]);
+
+                  if(!queued[m])
+                  {
+                     queued[m] = true;
+                     enQueueMaxRat(nonz, &rn, rperm[m]);
+                  }
                }
             }
             else
